@@ -509,6 +509,18 @@ def subparser_end(ctx, lexpr):
                     if (o["k"] == "multi" and o["l"] == local) or (o["k"] == "call" and o["block"] == bi) \
                             or _refers(fn, defs, t2["args"][0], local):
                         ends.append(b2)
+            if not ends:
+                # `parser.expect_datum().and_then(|d| parser.expect_end().map(|()| d))`: the check sits in a closure
+                # that captures this parser
+                for b in fn.blocks:
+                    for st in b["stmts"]:
+                        if st["k"] == "assign" and st["rv"]["k"] == "agg" and st["rv"].get("agg") == "closure" \
+                                and any(_refers(fn, defs, f2, local) for f2 in st["rv"].get("fields") or [] if isinstance(f2, dict)):
+                            g = lexpr.fn(st["rv"]["closure"])
+                            inner = [g] + (lexpr.closures_of(g.path) if g is not None else [])
+                            if any(t3["callee"].get("path", "").endswith(("::expect_end", "Parser::<R>::end"))
+                                   for h in inner if h is not None for _b3, t3 in h.calls()):
+                                ends.append(-1)
             if ends:
                 r.ok("%s: the parser created at line %s is checked with expect_end" % (fn.path, t.get("line")), fn, t.get("line"))
             else:
